@@ -67,3 +67,11 @@ def need_cases(report: Report, rule: str, summ: Summary) -> bool:
         report.add(rule, f"{base}::{summ.schema.name}", False, "the function raises on every path for a valid input schema", fmt(summ.result), "a tensor")
         return False
     return True
+
+
+def public_functional(f) -> bool:
+    """A public function of unit_scaling/functional.py (the unit-scaled ops): the unit at which
+    modules delegate.  Private helpers and decorator-made closures there are interpreted."""
+    from ..values import FuncV
+
+    return isinstance(f, FuncV) and f.module.name == "unit_scaling.functional" and "." not in f.qualname and not f.qualname.startswith("_")
